@@ -480,6 +480,28 @@ func (f *ctorFlow) classifyDepth(v ssa.Value, depth int) string {
 		}
 		return worst
 	}
+	// result #i of a private helper: the helper's i-th return operand on every return
+	if call, idx := fxCallOf(ir.ResolveCell(v)); call != nil && depth < 4 {
+		callee := ir.Callee(call.Call)
+		if callee != nil && fxOwnFunc(callee) && callee.Object() != nil && !callee.Object().Exported() && fxReturnedClosure(callee) == nil {
+			worst, n := "nonnil", 0
+			for _, r := range ir.Returns(callee) {
+				if idx >= len(r.Results) {
+					continue
+				}
+				n++
+				if k := f.classifyDepth(r.Results[idx], depth+1); k != "nonnil" {
+					worst = k
+				}
+			}
+			if n > 0 {
+				if strings.HasPrefix(worst, "maybe:") {
+					return "maybe:" + f.sym(v)
+				}
+				return worst
+			}
+		}
+	}
 	if ir.IsNilConst(v) {
 		return "nil"
 	}
@@ -2596,6 +2618,56 @@ func copyLoopCheck(c *Ctx, dec *ssa.Function) {
 		}
 		if same {
 			c.OK(pos, construct, "ranges over exactly the decoded count the list was made with", false)
+			// every success return lies behind the loop's own exit test (all
+			// elements decoded) or behind a test that the count is zero
+			idx := ia.Index
+			sameBound := func(v ssa.Value) bool { return v == bound || ir.Sym(v) == ir.Sym(bound) }
+			isIdx := func(v ssa.Value) bool {
+				if v == idx || fxIsIntConst(v, 0) {
+					return true
+				}
+				bin, ok := v.(*ssa.BinOp) // idx+1 of a bottom-tested loop
+				return ok && bin.Op == token.ADD && bin.X == idx && fxIsIntConst(bin.Y, 1)
+			}
+			legitExit := func(from, to *ssa.BasicBlock) bool {
+				if len(from.Instrs) == 0 || len(from.Succs) != 2 || from.Succs[0] == from.Succs[1] {
+					return false
+				}
+				iff, ok := from.Instrs[len(from.Instrs)-1].(*ssa.If)
+				if !ok {
+					return false
+				}
+				bin, ok := iff.Cond.(*ssa.BinOp)
+				if !ok {
+					return false
+				}
+				truth := to == from.Succs[0]
+				// the loop test failing: !(idx < bound)
+				if bin.Op == token.LSS && sameBound(bin.Y) && isIdx(bin.X) && !truth {
+					return true
+				}
+				// a test that holds only for count == 0
+				x, y, op := bin.X, bin.Y, bin.Op
+				if fxConst(x) != nil {
+					x, y = y, x
+					op = map[token.Token]token.Token{token.LSS: token.GTR, token.GTR: token.LSS, token.LEQ: token.GEQ, token.GEQ: token.LEQ, token.EQL: token.EQL, token.NEQ: token.NEQ}[op]
+				}
+				k := fxConst(y)
+				if a, isLen := lenArg(x); isLen && fxStripNoConv(a) == ssa.Value(ms) {
+					x = bound
+				}
+				if k == nil || k.Kind() != constant.Int || !sameBound(x) {
+					return false
+				}
+				holds := func(n int64) bool { return constant.Compare(constant.MakeInt64(n), op, k) == truth }
+				return holds(0) && !holds(1) && !holds(2) && !holds(1<<40)
+			}
+			reach := ir.ReachableFrom(lf.Blocks[0], legitExit)
+			for _, ret := range fxSuccessReturns(lf) {
+				if reach[ret.Block()] {
+					c.Violation(lf, c.P.InstrPos(ret), "early success in "+lf.Name(), "the list decoder can return success without having run its element loop to the decoded count (and without the count being zero): the remaining elements are never decoded and the rest of the node is read from the wrong offset")
+				}
+			}
 		} else {
 			c.Violation(lf, pos, construct, "the element loop runs to "+ir.Sym(bound)+" while the output list was made with "+ir.Sym(ms.Len)+" elements: trailing elements (the last link) are never decoded")
 		}
